@@ -396,6 +396,8 @@ func (x *Exec) registerLib() {
 		"(github.com/cosmos72/gomacro/xreflect.Type).NumMethod",
 		"github.com/cosmos72/gomacro/xreflect.ZeroR",
 		"unicode/utf8.DecodeRuneInString",
+		"strings.TrimSpace",
+		"github.com/cosmos72/gomacro/base/strings.Split2",
 	} {
 		pureUF(n)
 	}
